@@ -90,8 +90,9 @@ class Interp:
         """Interpret a call of a repository function; returns its value or
         UNKNOWN."""
         callee = self.flow.resolve_call(call, fn)
-        if callee is None and not isinstance(call.func, ast.Name):
-            # a function selected from a dispatch table
+        if callee is None:
+            # a function selected from a dispatch table (possibly held in a
+            # local: `state, action = row; action(out, value)`)
             fv = self.value(fn.module, call.func, env)
             if isinstance(fv, FuncRef):
                 callee = fv.func
